@@ -30,11 +30,42 @@ def main():
         print("no rules for property %s" % a.prop)
         return 2
     rep = harness.Report(a.prop, ctx)
+    st = None
+    if a.tier == "thorough" and not os.environ.get("VERIF_NO_SELFTEST"):
+        st = sensitivity(a.prop, a.repo)
+        rep.extra["sensitivity_selftest"] = st
     try:
-        return mod.run(rep)
+        rc = mod.run(rep)
     except harness.CheckerBroken as e:
         print("CHECKER-BROKEN property=%s: %s" % (a.prop, e))
         return 2
+    if st is not None:
+        print("  selftest: %d seeded variants detected, %d undetected, %d inapplicable; %d behaviour-preserving variants silent, %d false alarms"
+              % (st["detected"], len(st["undetected"]), st["inapplicable"], st["benign_silent"], len(st["benign_false_alarms"])))
+        if st["undetected"] or st["benign_false_alarms"]:
+            print("CHECKER-BROKEN property=%s: sensitivity self-test failed: undetected %s, false alarms %s" % (a.prop, st["undetected"], st["benign_false_alarms"]))
+            return 2
+    return rc
+
+
+def sensitivity(prop, repo):
+    """Thorough tier: apply every seeded variant of this property to a scratch copy and require the check to name the broken instance;
+    apply the behaviour-preserving variants and require silence.  A miss means the checker (not rubato) is broken: exit 2."""
+    sys.path.insert(0, os.path.join(harness.VERIF, "tools"))
+    sys.path.insert(0, os.path.join(harness.VERIF, "selftest"))
+    import selftest
+    import catalogue
+    from concurrent.futures import ThreadPoolExecutor
+    os.environ["VERIF_NO_SELFTEST"] = "1"
+    vs = [v for v in catalogue.VARIANTS if v["property"] == prop]
+    with ThreadPoolExecutor(max_workers=8) as ex:
+        res = list(ex.map(lambda v: (v["name"], selftest.run_variant(v, base_repo=repo)[0]), vs))
+    bs = [dict(v, properties=[prop]) for v in catalogue.BENIGN if prop in v["properties"]]
+    with ThreadPoolExecutor(max_workers=4) as ex:
+        bres = list(ex.map(lambda v: (v["name"], selftest.run_benign(v, base_repo=repo)[0]), bs))
+    return {"variants": len(vs), "detected": sum(1 for _, r in res if r == "detected"), "inapplicable": sum(1 for _, r in res if r == "inapplicable"),
+            "undetected": [n for n, r in res if r in ("missed", "wrong-report")], "benign_silent": sum(1 for _, r in bres if r == "silent"),
+            "benign_false_alarms": [n for n, r in bres if r == "false-alarm"]}
 
 
 if __name__ == "__main__":
